@@ -1,4 +1,5 @@
 """C16 — user sessions are private to one client connection and namespace (K4)."""
+import collections
 import copy
 
 from .. import common as C
@@ -12,7 +13,30 @@ PROFILE = {
                 'session': 16},
     'connect_outcomes': {'accept': 9, 'false': 1, 'refuse': 0, 'raise': 0},
     'max_transports': 3,
+    # "private to one client connection AND namespace": session calls that pair a session id with a namespace it does
+    # not belong to (the namespace argument forgotten = '/', or another namespace the same client is / was / will be
+    # connected to) and calls with ids that have ended
+    'stale_p': 0.22,
 }
+
+STATS = collections.Counter()      # what the oracle saw (flushed into the evidence by run())
+MEASURING = [False]                # the oracle counts only when called by measure(): once per generated history
+
+
+def stat(key):
+    if MEASURING[0]:
+        STATS[key] += 1
+
+
+def measure(cfg, trace):
+    """called once per generated history (never while shrinking): the oracle's own classification of the calls that
+    name no live session goes into the evidence; then the non-triviality key"""
+    MEASURING[0] = True
+    try:
+        oracle(cfg, trace, {})
+    finally:
+        MEASURING[0] = False
+    return nontrivial(cfg, trace)
 
 SIG = 'session-survives-namespace-reconnect'
 
@@ -25,10 +49,39 @@ def oracle(cfg, trace, residue):
 
     def earlier_stored(key, sid):
         return any(x != sid for x in hist.get(key, ()))
+    was_live = {}         # sid -> (tid, ns) it was announced on
+    ever_on = set()       # (tid, ns) that had a session at some time
+
+    def no_such_session(op, im):
+        """a session call whose (sid, namespace) pair names no live session: there is no session to hand out or to
+        write to -- the call must fail (the unchanged library raises KeyError) and must have no effect; the effect
+        is judged by the reads that follow, under the correct pairs, against the private-dict specification"""
+        sid, ns = op['sid'], op['ns']
+        cur = [x for x, v in live.items() if v == sid]
+        if cur:
+            t = cur[0][0]
+            kind = 'live_session_wrong_namespace.' + (
+                'same_client_connected_there' if (t, ns) in live else
+                'same_client_was_connected_there' if (t, ns) in ever_on else 'same_client_never_connected_there')
+        elif sid in was_live:
+            kind = 'ended_session' + ('' if was_live[sid][1] == ns else '.other_namespace')
+        else:
+            kind = 'unknown_id'
+        kind += '.namespace_has_clients' if any(x[1] == ns for x in live) else '.namespace_empty'
+        stat('%s.%s' % (op['op'], kind))
+        stat('calls')
+        if im['exc'] != 'KeyError':
+            fails.append((None, '%s(%s, namespace=%r) names no live session (%s: that id does not belong to that '
+                                'namespace) but %s' % (op['op'], sid, ns, kind,
+                                                       ('raised ' + im['exc']) if im['exc'] else
+                                                       ('returned %r' % (im['result'],) if op['op'] != 'save_session'
+                                                        else 'was accepted'))))
     for op, im, _ in trace:
         for tid, q in S.sent_packets(im):
             if q['type'] == 0 and isinstance(q['data'], dict):
                 live[(tid, q['ns'])] = q['data']['sid']
+                was_live.setdefault(q['data']['sid'], (tid, q['ns']))
+                ever_on.add((tid, q['ns']))
             elif q['type'] == 1:
                 live.pop((tid, q['ns']), None)
         k = op['op']
@@ -67,13 +120,20 @@ def oracle(cfg, trace, residue):
                             fails.append((None, 'nested session() blocks: stored %r, the two blocks wrote %r' % (im['result'], want)))
                     store[sid] = copy.deepcopy(want)
                 hist.setdefault(where[0], set()).add(sid)
+            elif not where:
+                no_such_session(op, im)
             continue
         if k not in ('get_session', 'save_session', 'session_block'):
             continue
         sid = op['sid']
         where = [x for x, v in live.items() if v == sid and x[1] == op['ns']]
         if not where:
-            continue                 # not a live session on that namespace: only the exception class is compared
+            no_such_session(op, im)
+            continue
+        if op.get('_after_stale'):
+            stat('read_of_the_session_born_after_a_mismatched_call')
+            if not (earlier_stored(where[0], sid) and sid_is_new_on(where[0], sid, trace)):
+                stat('read_of_the_session_born_after_a_mismatched_call.namespace_new_to_the_client')
         if im['exc'] and not (k == 'session_block' and op.get('raise_inside') and im['exc'] == 'HandlerError'):
             fails.append((None, '%s on a live session raised %s' % (k, im['exc'])))
             continue
@@ -131,7 +191,27 @@ def nontrivial(cfg, trace):
 def run(ctx):
     C.proof_step(ctx, ['the engine.io per-socket session dict lives exactly as long as the socket',
                        'dicts obtained from get_session() are not mutated outside session() (aliasing is not guaranteed by the docs)'])
-    S.run_cases(ctx, PROFILE, ctx.scale(150, 3000), 45, oracle=oracle, nontrivial=nontrivial)
+    STATS.clear()
+    S.run_cases(ctx, PROFILE, ctx.scale(150, 3000), 45, oracle=oracle, nontrivial=measure)
+    for k, v in sorted(STATS.items()):
+        ctx.count('no_such_session.' + k, v)
+    ctx.coverage['mismatched_sid_namespace_calls'] = {
+        'rule': 'get_session / save_session / session() / nested session() with a (sid, namespace) pair that names no '
+                'live session: a live id with another namespace ("/" = argument omitted, or one the same client is / '
+                'was / is later connected to), ended ids, while the namespace has / has no clients; followed by reads '
+                'under the correct pairs and, when the client connects to that namespace afterwards, of its new '
+                'session.  Oracle: the call raises KeyError and has no effect (the later reads are exactly the private '
+                'dict per live (sid, namespace), fresh at birth)',
+        'calls': STATS['calls'],
+        'live_id_other_namespace_same_client_connected_there': sum(
+            v for k, v in STATS.items() if '.same_client_connected_there.' in k),
+        'live_id_other_namespace_same_client_not_there_namespace_has_clients': sum(
+            v for k, v in STATS.items() if ('.same_client_never_connected_there.namespace_has_clients' in k
+                                            or '.same_client_was_connected_there.namespace_has_clients' in k)),
+        'new_session_read_after_such_a_call': STATS['read_of_the_session_born_after_a_mismatched_call'],
+        'new_session_read_after_such_a_call_outside_known_finding_region':
+            STATS['read_of_the_session_born_after_a_mismatched_call.namespace_new_to_the_client'],
+    }
     ctx.coverage['rule'] = ('histories over connect(ns), save_session, get_session, session() blocks, namespace DISCONNECT, '
                             'disconnect(), transport loss, reconnect on the same or a new transport, for several clients and '
                             'namespaces; oracle = one private dict per session id, fresh at birth. non-trivial = >=2 writes by '
